@@ -236,6 +236,22 @@ func compareView(sys *tarfs.FS, t *otree, rnd func(int) int) []failure {
 					add("readdir", "ReadDir(%q) is not strictly sorted: %q before %q", w.path, es[i-1].Name(), es[i].Name())
 				}
 			}
+			// The DirEntry's Info is the Stat of the entry.
+			for _, e := range es {
+				if len(es) > 40 || t.flags.throughLink {
+					// (Stat of the real path of a link placed through a link
+					// follows it: part of the finding literal-names.)
+					break
+				}
+				ei, err1 := e.Info()
+				si, err2 := fs.Stat(sys, path.Join(w.path, e.Name()))
+				if err1 != nil || err2 != nil {
+					continue // listed entries that do not resolve are reported by the walk
+				}
+				if ei.Name() != si.Name() || ei.Size() != si.Size() || ei.Mode() != si.Mode() || !ei.ModTime().Equal(si.ModTime()) {
+					add("readdir", "ReadDir(%q): entry %q has Info %v %d %v, Stat of it gives %v %d %v", w.path, e.Name(), ei.Mode(), ei.Size(), ei.ModTime().Unix(), si.Mode(), si.Size(), si.ModTime().Unix())
+				}
+			}
 			if nPaged < 4 {
 				nPaged++
 				for _, msg := range checkPaging(sys, w.path, es) {
